@@ -450,6 +450,10 @@ def write_evidence(mod, tier, root, stats, wall, nviol, params, extra=None):
         'violations': nviol,
     }
     d = os.path.join(VERIF, 'evidence')
+    if repo_root() != os.path.realpath('/repo'):
+        # a run against a scratch copy (sensitivity test) must not replace
+        # the evidence of /repo itself
+        d = os.path.join(VERIF, 'replays', 'scratch-evidence')
     os.makedirs(d, exist_ok=True)
     path = os.path.join(d, mod.ID + '.json')
     tmp = path + '.tmp'
